@@ -299,6 +299,19 @@ def _armfn(arm, f):
     return f.node
 
 
+# functions whose mechanical mutants are swept in the thorough tier (coverage evidence, see sa/mutate.py)
+MUTATION_SCOPE = ['interpreter:KlongInterpreter._eval_fn',
+                  'interpreter:KlongInterpreter._resolve_fn',
+                  'interpreter:KlongInterpreter.call',
+                  'interpreter:KlongContext.push',
+                  'interpreter:KlongContext.pop',
+                  'sys_fn:eval_sys_load',
+                  'sys_fn:_import_module',
+                  'sys_fn:eval_sys_backend_fn',
+                  'ws/sys_fn_ws:execute_server_command',
+                  'sys_fn_ipc:execute_server_command',
+                  'types:merge_projections']
+
 SEEDS = [
     Seed("pop-after-try", "fault", "interpreter",
          "        try:\n            return f(self, self._context) if issubclass(type(f), KGLambda) else self.call(f)\n        finally:\n            self._context.pop()",
